@@ -125,19 +125,51 @@ def piece_bytes(piece, path, argv, dsmax):
     raise KeyError(piece)
 
 
+def _lcp(a, b):
+    n = min(len(a), len(b))
+    if a[:n] == b[:n]:
+        return n
+    lo, hi = 0, n
+    while lo < hi:                      # binary search on the first mismatch (slices compare at C speed)
+        mid = (lo + hi + 1) // 2
+        if a[:mid] == b[:mid]:
+            lo = mid
+        else:
+            hi = mid - 1
+    return lo
+
+
 def is_selection(rec, pieces):
-    """rec is an in-order concatenation of (possibly empty) prefixes of the pieces."""
-    states = {0}
-    for p in pieces:
-        nxt = set()
-        for s in states:
-            k = 0
-            nxt.add(s)
-            while k < len(p) and s + k < len(rec) and rec[s + k] == p[k]:
-                k += 1
-                nxt.add(s + k)
-        states = nxt
-    return len(rec) in states
+    """rec is an in-order concatenation of (possibly empty) prefixes of the pieces (skipping and truncating both allowed).
+    Exact search for small inputs; for large ones the canonical strategies (whole-or-skip, longest-prefix) are tried."""
+    total = sum(len(p) for p in pieces)
+    if total <= 6000:
+        states = {0}
+        for p in pieces:
+            nxt = set(states)
+            for s in states:
+                l = _lcp(p, rec[s:s + len(p)])
+                nxt.update(range(s + 1, s + l + 1))
+            states = nxt
+        return len(rec) in states
+    pos = 0
+    for p in pieces:                    # whole-or-skip
+        if rec.startswith(p, pos):
+            pos += len(p)
+    if pos == len(rec):
+        return True
+    pos = 0
+    for p in pieces:                    # longest common prefix
+        pos += _lcp(p, rec[pos:pos + len(p)])
+    if pos == len(rec):
+        return True
+    pos = 0
+    for k, p in enumerate(pieces):      # whole-or-skip, but the last contributing piece may be cut
+        if rec.startswith(p, pos):
+            pos += len(p)
+        elif pos + _lcp(p, rec[pos:pos + len(p)]) == len(rec):
+            return True
+    return pos == len(rec)
 
 
 def message_ok(got, rec, path, argv, info):
